@@ -152,6 +152,15 @@ func (c *conn) Close() error {
 	return c.c.Close()
 }
 
+// CloseWrite half-closes the underlying connection if it can be half-closed:
+// the proxies end one direction of a tunnel with it and keep the other open.
+func (c *conn) CloseWrite() error {
+	if cw, ok := c.c.(interface{ CloseWrite() error }); ok {
+		return cw.CloseWrite()
+	}
+	return c.c.Close()
+}
+
 func (c *conn) LocalAddr() net.Addr {
 	return c.c.LocalAddr()
 }
